@@ -28,7 +28,7 @@ def main(argv):
 
         def assume(**a):
             for c in codes:
-                if eval(c, dict(HELPERS), dict(a)):
+                if eval(c, dict(HELPERS, ARGS=dict(a)), dict(a)):
                     return False
             return True
 
